@@ -45,6 +45,7 @@ type simNode struct {
 	ackedIndex    uint64 // highest log index acknowledged as stored by the incarnation that crashed last
 	ackedTerm     uint64
 	ackedMaxEver  uint64 // highest index any incarnation of this node ever acknowledged
+	tampered      bool   // a second instance opened this node's directory while it was served (C20 profile)
 	lastCrashAtIO bool
 }
 
